@@ -332,8 +332,21 @@ def gen_chain_case(rng, proxy=False):
     if rng.random() < 0.1:
         factory.append(('X-Multi', 'one'))
         factory.append(('X-Multi', 'two'))
-    return {'stream': 'session', 'url': url, 'proxy': proxy, 'replies': gen_script(rng, http_only=proxy), 'max_redirects': rng.choice([0, 1, 2, 3, 5, 20, 20]),
-            'use_jar': rng.random() < 0.75, 'login': login, 'method': method, 'body': body, 'extra': extra, 'factory': factory}
+    replies = gen_script(rng, http_only=proxy)
+    use_jar = rng.random() < 0.75
+    max_redirects = rng.choice([0, 1, 2, 3, 5, 20, 20])
+    if rng.random() < 0.12:
+        # aimed at state that sticks to the ORIGINAL request object: a 401 that sets a cookie (the retry then carries
+        # Cookie + Authorization), followed by a 307/308 replay to another host, and back
+        login = login or ('GU', 'GP')
+        use_jar = True
+        max_redirects = 20
+        other = rng.choice(['b.example', 'c.test', 'sub.a.example', '[::1]'])
+        replies = [{'status': 401, 'location': None, 'cookies': [b'ckA=v%d' % rng.randrange(1000)], 'mode': 'resp'},
+                   {'status': rng.choice([307, 308]), 'location': ('http://%s/t%d' % (other, rng.randrange(100))).encode(),
+                    'cookies': [b'ckB=v%d' % rng.randrange(1000)] if rng.random() < 0.5 else [], 'mode': 'resp'}] + replies
+    return {'stream': 'session', 'url': url, 'proxy': proxy, 'replies': replies, 'max_redirects': max_redirects,
+            'use_jar': use_jar, 'login': login, 'method': method, 'body': body, 'extra': extra, 'factory': factory}
 
 
 def cookie_owner_ok(req_host, set_host, domain_attr):
